@@ -28,12 +28,21 @@ NOT_DECIDED = "That the accepted grammar is the intended one; behaviour of the r
 def check(run):
     for cfg in run.cfgs("A", "C"):
         F = run.facts(cfg)
+        from analysis.guards import rule_visits_all as _rva
+        run.guard("C11.6.every-line", cfg, lambda: _rva(run, "C11.6.every-line", F, cfg, ['lists::parse_filters_with_metadata', 'lists::FilterSet::add_filters', 'lists::FilterSet::add_filter_list'],
+                  'Every line of a list is parsed on its own: a rejected line must not end the walk over the remaining lines', minimum=2))
         run.guard("C11.1.totality", cfg, lambda: a7.check_cone(
             run, "C11.1.totality", F, cfg, a7_cones.PARSE_ROOTS, a7_common.rows(), a7_common.ALL,
             floor=140, label="list-parsing"))
         run.guard("C11.2.line-independence", cfg, lambda: rule_independence(run, F, cfg))
         run.guard("C11.3.hosts-delegation", cfg, lambda: rule_hosts(run, F, cfg))
         run.guard("C11.4.rule-types", cfg, lambda: rule_types(run, F, cfg))
+        from . import wire_keys as _wk
+        run.guard("C11.5.options-wire-keys", cfg, lambda: run.floor(
+            "C11.5.options-wire-keys", f"option keys / variants compared [{cfg}]",
+            _wk.rule_keys(run, "C11.5.options-wire-keys", F, cfg, _wk.OPTIONS, _wk.OPTIONS_VARIANTS,
+                          "Options passed as data (the JS bindings deserialize ParseOptions) would otherwise fall back to "
+                          "the defaults: rule_types = All loads the rules a network-only / cosmetic-only load must not"), 8))
 
 
 def rule_independence(run, F, cfg):
